@@ -440,11 +440,12 @@ class QueueWorld(object):
     def _apply_outcome(self, o, rcpts, led):
         # reply texts; with cfg['unicode_replies'] they are not ASCII (legal with SMTPUTF8 / 8-bit replies)
         T, P = ('t\u00e9mp \u2709', 'p\u00e9rm \u5bc6') if self.cfg.get('unicode_replies') else ('temp', 'perm')
-        def temp(i=''):
-            return TransientRelayError('t' + i, Reply('450', '4.0.0 ' + T + i))
+        def temp(i='', bare=False):
+            # bare: the same reply written without its enhanced status code (Reply supplies the default one: it reads the same)
+            return TransientRelayError('t' + i, Reply('450', ('' if bare else '4.0.0 ') + T + i))
 
-        def perm(i=''):
-            return PermanentRelayError('p' + i, Reply('550', '5.0.0 ' + P + i))
+        def perm(i='', bare=False):
+            return PermanentRelayError('p' + i, Reply('550', ('' if bare else '5.0.0 ') + P + i))
         if o == 'ok':
             for r in rcpts:
                 self._settle(led, r, 'ok')
@@ -476,10 +477,10 @@ class QueueWorld(object):
                 vals.append(None)
             elif c == 't':
                 lt[r] = ('450', '4.0.0 ' + T + tag)
-                vals.append(temp(tag))
+                vals.append(temp(tag, bare=bool(self.cfg.get('mixed_spelling')) and j >= 2))
             else:
                 self._settle(led, r, 'perm', ('550', '5.0.0 ' + P + tag))
-                vals.append(perm(tag))
+                vals.append(perm(tag, bare=bool(self.cfg.get('mixed_spelling')) and j >= 2))
         if led is not None:
             led['last_temp'] = lt
         if kind == 'map':
@@ -558,7 +559,7 @@ class QueueWorld(object):
                 self.ledger[qid]['removed'] = True
                 self.ev('damaged', qid)
             if cfg['backend'] == 'redis' and cfg.get('prestored', 0) and not cfg.get('keep_announcements', True):
-                self.fake_redis.data.pop(b'slimta:queue', None)
+                self.fake_redis.data.pop((self.cfg.get('redis_prefix', 'slimta:') + 'queue').encode(), None)
             store = MonitoredStore(self, inner)
             self.store = store
             relay = ScriptedRelay(self)
@@ -804,7 +805,7 @@ class QueueWorld(object):
         if b == 'disk':
             return set(p.rsplit('/', 1)[1][:-4] for p in self.fs.files if p.endswith('.env') or p.endswith('.meta'))
         if b == 'redis':
-            return set(k.decode()[len('slimta:'):] for k, d in self.fake_redis.data.items() if isinstance(d, dict))
+            return set(k.decode()[len(self.cfg.get('redis_prefix', 'slimta:')):] for k, d in self.fake_redis.data.items() if isinstance(d, dict))
         if b == 'cloud':
             return set(self.objstore.objects)
 
